@@ -270,7 +270,16 @@ def layout(ctx, world):
         if not ents:
             ctx.fail("A2.layout", name, f"layout:{name}:norule", loc_of(m, fn), f"{name} has no VJP rule", "grad through tuple/list concatenation")
             continue
-        e = ents[-1]
+        jents = [e for e in world.table.entries if e.prim_id == ref.qual and e.mode == "jvp" and e.spec == "maker"]
+        for e, tag in [(ents[-1], "")] + ([(jents[-1], ":jvp")] if jents else []):
+            _layout_one(ctx, world, name + tag, name, lay, e)
+    if not found:
+        ctx.ob("A2.layout", "no variadic sequence_extend primitive in builtins (concatenation wiring: A14.containers)", True, "autograd/builtins.py", nontrivial=False)
+
+
+def _layout_one(ctx, world, name, prim_name, lay, e):
+    """one rule (the gather g[idx] of the VJP, or the scatter untake(g, idx, space) of a JVP) against the layout"""
+    for _ in (0,):
         ir = world.ir(e)
         if ir is None or not ir.ok:
             ctx.ob("A2.layout", name, None, e.loc)
@@ -303,8 +312,6 @@ def layout(ctx, world):
                 f"the primitive lays its result out as [{lay}] but the rule selects argnum 0 with {f0} and element k with {fk} (expected {want0} / {wantk}); forms are (a*len(seq) + b*len(elts) + c*argnum + d)",
                 "a sequence of length >= 2 extended by >= 2 elements, all differentiated",
             )
-    if not found:
-        ctx.ob("A2.layout", "no variadic sequence_extend primitive in builtins (concatenation wiring: A14.containers)", True, "autograd/builtins.py", nontrivial=False)
 
 
 def _lin(t, names):
@@ -342,9 +349,31 @@ def _lin(t, names):
 
 def _index_forms(ev, result):
     """(form for argnum == 0, form for argnum != 0) from  if(argnum == 0 ? g[slice] : g[index])"""
+    from ..terms import T
+
     t = result
     while t.op == "seq":
         t = t.value
+
+    def is_g(x):
+        return x.op == "sym" and x.get("role") == "g"
+
+    def untake_idx(x):
+        """the index of a scatter container_untake(g, idx, space) (the forward-mode twin of g[idx])"""
+        if x.op == "call" and len(x.args) >= 2 and is_g(x.args[0]):
+            r, _ = resolve_callee(ev, x)
+            if r is not None and r.qual.rsplit(".", 1)[-1] in ("container_untake", "untake"):
+                return x.args[1]
+        return None
+
+    ui = untake_idx(t)
+    if t.op != "if" and ui is not None:
+        while ui.op == "seq":
+            ui = ui.value
+        if ui.op == "if":
+            # untake(g, i0 if argnum == 0 else ik, ..)  ==  untake(g, i0, ..) if argnum == 0 else untake(g, ik, ..)
+            mk = lambda i_: T("call", t.node, t.mod, fn=t.fn, args=[t.args[0], i_] + list(t.args[2:]), kw=t.kw, dstar=t.get("dstar", []))
+            t = T("if", ui.node, ui.mod, cond=ui.cond, then=mk(ui.then), other=mk(ui.other))
     if t.op != "if":
         return None
     c = t.cond
@@ -352,9 +381,22 @@ def _index_forms(ev, result):
         return None
 
     def form(x):
-        if x.op != "sub" or not (x.obj.op == "sym" and x.obj.get("role") == "g"):
+        while x.op == "seq":
+            x = x.value
+        ui_ = untake_idx(x)
+        if ui_ is not None:
+            i = ui_
+        elif x.op != "sub" or not is_g(x.obj):
             return ("?",)
-        i = x.idx
+        else:
+            i = x.idx
+        while i.op == "seq":
+            i = i.value
+        if i.op == "call" and i.fn.op == "ref" and i.fn.ref.qual == "builtins.slice" and 1 <= len(i.args) <= 3 and not i.kw:
+            # slice(hi) / slice(lo, hi[, step]) written as a call
+            none_ = T("const", i.node, i.mod, value=None)
+            lo_, hi_ = (none_, i.args[0]) if len(i.args) == 1 else (i.args[0], i.args[1])
+            i = T("slice", i.node, i.mod, lo=lo_, hi=hi_, step=i.args[2] if len(i.args) == 3 else none_)
         if i.op == "slice":
             lo, hi = _lin(i.lo, None), _lin(i.hi, None)
             lo = (0, 0, 0, 0) if lo is None else lo
@@ -545,3 +587,83 @@ def dropped_options(ctx, world, modes=("vjp", "jvp")):
                 else:
                     ctx.fail("A2.drop", inst, f"{e.mode}:{e.prim_id}|drop:{base_name(ref)}:{missing[0]}", e.loc, f"the rule hands `{', '.join(handed)}` of {base_name(e.prim)} on to {base_name(ref)} but not `{missing[0]}`, which both functions take: the callee uses its own default ({qsig['defaults'][missing[0]]!r})", f"{base_name(e.prim)} called with {missing[0]}= a value other than the default")
     ctx.floor(f"A2.drop option-forwarding calls ({'+'.join(modes)})", n, 10 if "vjp" in modes else 4)
+
+
+# option names that cannot change the linear map a rule has to implement (storage / precision of the forward result)
+_MAP_NEUTRAL_OPTIONS = {"out", "dtype", "subok", "casting", "like"}
+# (primitive base name, parameter) pairs confirmed by reading: the rule is right although it never looks at the option
+_IGNORED_OK = {
+    ("*", "keepdims"): "the shape of the cotangent under both keepdims values is decided by A3.reduce; the rules reshape it to the keepdims=True shape computed from the argument's shape and axis",
+    ("squeeze", "axis"): "the cotangent is reshaped to the argument's own shape, which undoes every squeeze",
+    ("pad", "**"): "constant_values / end_values shift the result by a constant: the derivative w.r.t. the padded array does not depend on them (mode itself is asserted)",
+}
+
+
+def ignored_options(ctx, world, modes=("vjp", "jvp")):
+    """A2.ignored - a rule that NAMES an optional parameter of its primitive accepts calls that set it.  A named option
+    that no path of the rule ever reads (no guard, no call, no shape arithmetic) is accepted and ignored: the forward
+    pass ran with the caller's value, the derivative is computed as if it had its default.  The same holds for a
+    **kwargs catch-all that is never forwarded or inspected."""
+    from ..terms import walk as _walk
+    from ..tutil import expand
+
+    ctx.describe("A2.ignored", "every optional NumPy parameter that a rule binds by name (or swallows in **kwargs) is read somewhere in the rule - in a guard, a call or an index computation - unless it is another differentiable operand, a storage/precision option (out, dtype, subok, casting, like) or a confirmed exception; a rule that accepts an option and never looks at it differentiates a different call than the one that ran")
+    n = 0
+    diff_pos = {}
+    for e in world.table.entries:
+        if isinstance(e.argnum, int):
+            diff_pos.setdefault(e.prim_id, set()).add(e.argnum)
+    for e in world.table.entries:
+        if e.mode not in modes or e.spec != "maker" or not world.in_numpy_scope(e) or not is_numpy_callable(e.prim):
+            continue
+        if e.api not in ("defvjp", "defjvp"):
+            continue
+        psig = world.env.signature(e.prim.qual)
+        ir = world.ir(e)
+        if not psig or ir is None or not ir.ok or ir.maker is None or not isinstance(ir.maker.fnode, (ast.FunctionDef, ast.Lambda)):
+            continue
+        ma = ir.maker.fnode.args
+        names = [a.arg for a in ma.posonlyargs + ma.args]
+        skip = len(ir.pre) + (1 if e.mode == "vjp" else 2)
+        mpos = names[skip:]
+        kwonly = [a.arg for a in ma.kwonlyargs]
+        popt = {p for p in psig["pos"] + psig["kwonly"] if p in psig["defaults"]}
+        used_names, used_idx, kwrest_seen = set(), set(), False
+        for root in (ir.made, ir.result):
+            if root is None:
+                continue
+            for x in _walk(expand(world.ev, root, ())):
+                if x.op == "arg":
+                    if x.get("name"):
+                        used_names.add(x.name)
+                    if x.get("index") is not None:
+                        used_idx.add(x.index)
+                elif x.op == "kwrest":
+                    kwrest_seen = True
+        bn = base_name(e.prim)
+        cands = []
+        for k, m_ in enumerate(mpos):
+            pk = psig["pos"][k] if k < len(psig["pos"]) else None
+            if (m_ in popt or (pk is not None and pk in popt)) and k not in diff_pos.get(e.prim_id, ()):
+                # keyword calls reach the parameter under the maker's own name, positional calls under NumPy's
+                cands.append((m_, m_ if m_ in popt else pk, k))
+        for m_ in kwonly:
+            if m_ in popt:
+                cands.append((m_, m_, None))
+        for m_, p, k in cands:
+            inst = f"{construct_of(e)}:{p}"
+            n += 1
+            if m_ in used_names or (k is not None and k in used_idx):
+                ctx.ob("A2.ignored", inst, True, e.loc)
+            elif p in _MAP_NEUTRAL_OPTIONS or m_ in _MAP_NEUTRAL_OPTIONS or (bn, p) in _IGNORED_OK or ("*", p) in _IGNORED_OK:
+                ctx.ob("A2.ignored", inst, True, e.loc, nontrivial=False, sample="exempt: " + (_IGNORED_OK.get((bn, p)) or _IGNORED_OK.get(("*", p)) or "storage / precision option"))
+            else:
+                ctx.fail("A2.ignored", inst, f"{e.mode}:{e.prim_id}|ignored:{p}", e.loc, f"the rule accepts `{m_}` (NumPy's `{p}` of {bn}) but no path of it reads the value: a call that sets it is differentiated as if it had been left at its default", f"{bn} called with {p}= a value other than the default")
+        if ma.kwarg is not None:
+            inst = f"{construct_of(e)}:**{ma.kwarg.arg}"
+            n += 1
+            if kwrest_seen or (bn, "**") in _IGNORED_OK:
+                ctx.ob("A2.ignored", inst, True, e.loc, nontrivial=kwrest_seen)
+            else:
+                ctx.fail("A2.ignored", inst, f"{e.mode}:{e.prim_id}|ignored:**", e.loc, f"the rule swallows every remaining keyword of {bn} in **{ma.kwarg.arg} and never forwards or inspects them", f"{bn} called with any further option")
+    ctx.floor(f"A2.ignored named options ({'+'.join(modes)})", n, 40 if "vjp" in modes else 15)
